@@ -100,26 +100,35 @@ theorem copy_preserves (src : Dir) (s : List Chunk) (rid : String) (rechunk : Bo
     rw [hp.plain hre]
     simp [List.map_map, Function.comp_def, restore, setTarget]
 
-/-- Copying to SEVERAL destination frontends in one call (`target_frontend_id=None`): every one of
-them — not only the first — receives data that loads to exactly the rows of the source, over the
-same range, law-abiding, with metadata that agrees with its files. -/
+/-- Copying to SEVERAL destination frontends in one call (`target_frontend_id=None`), with the loop
+as the code has it (`copyLoop`: a loader generator created per target INSIDE the loop and consumed
+by that target's saver, `loaderPerTarget = true`): every one of the `nTargets` destinations — not
+only the first — receives data that loads to exactly the rows of the source, over the same range,
+law-abiding, with metadata that agrees with its files.  The variant with ONE loader created before
+the loop is a different model (`fresh = false`) for which this is false:
+`copy_shared_loader_counterexample`. -/
 theorem copy_to_all_preserves (src : Dir) (s : List Chunk) (rid : String) (rechunk : Bool) (rechunkTo nTargets : Nat)
     (hload : loadDir src = .ok s) (hl : Strax.LawAbiding s = true)
     (hrid : s.head?.bind (·.runId) = some rid) (hplain : rid.startsWith "_" = false)
     (hmd : src.1.hdr.runId.startsWith "_" = false) (ht : rechunk = true → 1 ≤ rechunkTo) :
-    (copyToAll Generated.getSplitsArgmin0 src rechunk rechunkTo nTargets).length = nTargets ∧
-    ∀ r ∈ copyToAll Generated.getSplitsArgmin0 src rechunk rechunkTo nTargets,
+    (copyToAll Generated.getSplitsArgmin0 loaderPerTarget src rechunk rechunkTo nTargets).length = nTargets ∧
+    ∀ r ∈ copyToAll Generated.getSplitsArgmin0 loaderPerTarget src rechunk rechunkTo nTargets,
       ∃ dst loaded out, r = .ok dst ∧ loadDir dst = .ok loaded ∧ rows loaded = rows s ∧
         loaded.head?.map (·.start) = s.head?.map (·.start) ∧
         loaded.getLast?.map (·.stop) = s.getLast?.map (·.stop) ∧
         Strax.LawAbiding loaded = true ∧ boundaryRuleB s loaded = true ∧
         MetaConsistent (copyHeader src.1.hdr rechunk rechunkTo) dst.1 dst.2 out ∧ rows out = rows s := by
-  refine ⟨by simp [copyToAll], ?_⟩
-  intro r hr
-  have hr' : r = copyData Generated.getSplitsArgmin0 src rechunk rechunkTo := List.eq_of_mem_replicate hr
   obtain ⟨dst, loaded, out, h1, h2, h3, h4, h5, h6, _, _, h9, _, h11, h12⟩ :=
     copy_preserves src s rid rechunk rechunkTo hload hl hrid hplain hmd ht
-  exact ⟨dst, loaded, out, by rw [hr', h1], h2, h3, h4, h5, h6, h9, h11, h12⟩
+  have hall : copyToAll Generated.getSplitsArgmin0 loaderPerTarget src rechunk rechunkTo nTargets =
+      List.replicate nTargets (.ok dst) := by
+    simp only [copyToAll, loaderPerTarget, if_true]
+    exact copyLoop_fresh _ src rechunk rechunkTo dst h1 nTargets []
+  rw [hall]
+  refine ⟨by simp, ?_⟩
+  intro r hr
+  have hr' : r = .ok dst := List.eq_of_mem_replicate hr
+  exact ⟨dst, loaded, out, hr', h2, h3, h4, h5, h6, h9, h11, h12⟩
 
 /-! ## 2. the stand-alone rechunker -/
 
@@ -278,6 +287,17 @@ theorem source_destroyed_old_counterexample :
     (r.1.src.map fun d => (loadDir d).toOption) = some none := by
   decide +kernel
 
+/-- **a loader shared by all targets** (`fresh = false`: created once before the loop — the
+mistake the code comment warns about): the first destination gets the data, the second is written
+"successfully" but holds no chunk at all and cannot be loaded; with a loader per target both hold
+the rows of the source. -/
+theorem copy_shared_loader_counterexample :
+    ((copyToAll (-1) false exDir false 1 2).map fun r => r.toOption.map fun d => (d.1.chunks.length, (loadDir d).toOption.map rows))
+      = [some (2, some [⟨1, 4, 0⟩, ⟨4000, 4001, 1⟩]), some (0, none)] ∧
+    ((copyToAll (-1) true exDir false 1 2).map fun r => r.toOption.map fun d => (d.1.chunks.length, (loadDir d).toOption.map rows))
+      = [some (2, some [⟨1, 4, 0⟩, ⟨4000, 4001, 1⟩]), some (2, some [⟨1, 4, 0⟩, ⟨4000, 4001, 1⟩])] := by
+  decide +kernel
+
 /-! ## 4. rechunk on load -/
 
 /-- Loading stored data with `rechunk_on_load` (any source size of at least one row) succeeds and
@@ -333,7 +353,12 @@ non-empty consecutive jobs: running the jobs (each saved under its own header, w
 rechunk-on-save), then merging the stored results (with or without rechunking, to any target of at
 least one row) succeeds, and the merged data loads to exactly `whole (rows dependency)` — the rows
 of computing on all chunks at once (`direct`) — over the range of the dependency, law-abiding, with
-metadata that agrees with the files. -/
+metadata that agrees with the files.
+Restriction of the property's quantifier: ONE per-chunked dependency and a stateless chunk-wise
+plugin (`ChunkWise`); plugins with several dependencies (the connector checks of
+`__assign_chunk_number_to_plugin`) and plugin kinds that carry state between chunks (refused by
+strax: LoopPlugin, OverlapWindowPlugin) are outside; `per_chunk_keys_distinct` likewise tags a
+single data type. -/
 theorem per_chunk_merge {f : Chunk → Except Err Chunk} {dt : String} {tt : Nat} {whole : List Row → List Row}
     (hf : ChunkWise f dt tt) (hhom : ChunkHomRows f whole)
     (groups : List (List Chunk)) (jobHdrs : List Header) (hdr : Header) (rid : String)
